@@ -323,6 +323,21 @@ func cSnapClear(c *Check) {
 				c.Result(cs.Caller == appliedSnap, "C08.S", "caller of raftLog.stableSnapTo", fnName(cs.Caller), p.site(cs.Instr), "only raft.appliedSnap (a storage acknowledgement)", "")
 			}
 		}
+		// the apply cursor moves to the acknowledged snapshot's own index: not to the commit index,
+		// which may already be ahead (entries that arrived while the install was outstanding must
+		// still be delivered after the snapshot)
+		if rAppliedTo := p.Method("raft", "raft", "appliedTo"); rAppliedTo != nil {
+			afi := p.Info(appliedSnap)
+			snap := afi.Sym(appliedSnap.Params[1])
+			n := 0
+			for _, ci := range p.CallsIn(appliedSnap, rAppliedTo) {
+				n++
+				a := afi.Sym(callArgs(ci)[1])
+				ok := strings.Contains(a.Key(), snap.Key()) && strings.HasSuffix(a.Key(), ".GetMetadata().GetIndex()")
+				c.Result(ok, "C08.S", "appliedSnap advances the cursor to the snapshot index", fnName(appliedSnap), p.site(ci), "appliedTo(snap.Metadata.Index, 0)", sanitizeKey(a.Key()))
+			}
+			c.Result(n >= 1, "C08.S", "appliedSnap advances the cursor", fnName(appliedSnap), p.Pos(appliedSnap.Pos()), "appliedSnap calls appliedTo", fmt.Sprint(n))
+		}
 	}
 }
 
